@@ -224,6 +224,36 @@ def campaign(c):
             if len(f) != 1 or f[0][14:] != want:
                 c.violation('sem:arg-order', 'arguments were not evaluated left to right exactly once', dict(src=src.decode()))
         c.case(('ord', i), dict(kind='order', src=src.decode()[:300]))
+    # (f4) the same for calls that mix `name: value` and unnamed arguments: keyword arguments are evaluated where they are
+    #      written, not before or after the unnamed ones. Oracle (independent of what the callee does with its parameters): the
+    #      call with every operand hoisted into a let, in source order, writes the same file
+    KW = [('tls::client_hello(%s)', ['sessionid', 'ciphers', 'compression'], True, 'wrap'), ('eth::frame(%s)', ['dst', 'src'], True, 'pkt'),
+          ('dhcp::hdr(%s)', ['chaddr', 'sname', 'file'], False, 'wrap'), ('tls::server_hello(%s)', ['sessionid'], True, 'wrap')]
+    for i in range(24 if c.quick else 300):
+        r = c.rng.fork('kword%d' % i)
+        tmpl, names, tail_ok, kind = KW[i % len(KW)]
+        data = r.bytes(40 + r.below(20))
+        kws = [n for n in names if r.chance(3, 4)] or names[:1]
+        if tmpl.startswith('eth::frame'): kws = list(names)
+        if r.chance(1, 2): kws.reverse()
+        ops = [(n, 6 if n in ('dst', 'src', 'chaddr') else 2 * (1 + r.below(3))) for n in kws] + ([(None, 1 + r.below(5)) for _ in range(1 + r.below(3))] if tail_ok else [])
+        inline = ', '.join(('%s: b.read(%d)' % (n, k)) if n else 'b.read(%d)' % k for n, k in ops)
+        hoist = ''.join('let h%d = b.read(%d);\n' % (j, k) for j, (n, k) in enumerate(ops))
+        hargs = ', '.join(('%s: h%d' % (n, j)) if n else 'h%d' % j for j, (n, k) in enumerate(ops))
+        pre6 = 'import io;\nimport eth;\nimport tls;\nimport dhcp;\nlet b = io::bufio("|%s|");\n' % data.hex()
+        def stmt(a):
+            e = tmpl % a
+            return (e if kind == 'pkt' else 'eth::frame("|000000000001|", "|000000000002|", %s, b.read_all())' % e) + ';\n'
+        src = (pre6 + stmt(inline)).encode()
+        ref = core.run_cli((pre6 + hoist + stmt(hargs)).encode())
+        impl, model = progdiff.run_both(c, src)
+        progdiff.compare(c, src, impl, model, 'kw-order')
+        if core.classify_cli(ref)[0] == 'success':
+            c.count('kw-order-case')
+            if impl['outcome'][0] != 'success' or impl['file'] != ref['pcap']:
+                c.violation('sem:kw-arg-order', 'a call mixing named and unnamed arguments does not evaluate them left to right: hoisting the operands into lets in source order changes the output',
+                            dict(src=src.decode(), hoisted=(pre6 + hoist + stmt(hargs))))
+        c.case(('kw-order', i), dict(kind='kw-order', call=tmpl % inline))
     # (i) the spelling of a bound name is irrelevant (alpha-renaming): templates with deferred emission, re-binding and use,
     #     instantiated with identifiers of every shape the lexer accepts, behave exactly as with a plain name
     templates = [('deferred', 'import ipv4;\nlet t = ipv4::tcp::flow(1.2.3.4:1, 5.6.7.8:2);\nlet NAME = t.client_message("abc");\nt.server_message("x");\nNAME;\nNAME;\n'),
